@@ -5,11 +5,13 @@ import (
 	"encoding/json"
 	"fmt"
 	"os"
+	"regexp"
 	"runtime/debug"
 	"sort"
 	"strconv"
 	"strings"
 	"sync"
+	"time"
 
 	"github.com/deckhouse/deckhouse/pkg/log"
 	"github.com/hashicorp/go-multierror"
@@ -98,6 +100,9 @@ func c13Resolvable(apiVersion, kind string) bool {
 type c13Obj map[int]int // field id (1-based) -> value n
 
 func (k *c13Kind) val(n int) any {
+	if n >= c13ExoBase {
+		return c13ExoVal{n - c13ExoBase}
+	}
 	if k.ints {
 		return n
 	}
@@ -105,10 +110,178 @@ func (k *c13Kind) val(n int) any {
 }
 
 func (k *c13Kind) tok(n int) string {
+	if n >= c13ExoBase {
+		// two JSON texts may denote one value (MaxInt64 and MaxInt64+1 are the same float64)
+		for i, e := range c13Exotics {
+			if e.want == c13Exotics[n-c13ExoBase].want {
+				return e.class + strconv.Itoa(c13ExoBase+i)
+			}
+		}
+	}
 	if k.ints {
 		return "i" + strconv.Itoa(n)
 	}
 	return "s" + strconv.Itoa(n)
+}
+
+// ---------------------------------------------------------------- scalars the two decoders type differently
+//
+// "The same documents written as JSON or as YAML": a scalar of the table below is ONE JSON value (`json`,
+// the text a hook would write into a JSON patch file) and the spellings of the same value a hook may
+// write into a YAML patch file (`yaml`; "" = the rendering sigs.k8s.io/yaml gives for the JSON text).
+// yaml.v3 resolves these spellings to Go types encoding/json never yields (int, uint64 for integers
+// above MaxInt64, time.Time for unquoted timestamps, bool / nil for several spellings) or to the same
+// type by another route (hex / octal integers, exponents, folded long strings, strings that would be
+// another type if they were not quoted). For the model such a scalar is one more interned value
+// (`i<1000+k>`: a number literal, `s<1000+k>`: a string-like scalar): what it has to be after decoding
+// is what encoding/json - used by the harness itself, on the JSON text - makes of it.
+const c13ExoBase = 1000
+
+type c13Exo struct {
+	class string   // "i": a number literal, "s": any other scalar
+	json  string   // the scalar as JSON text
+	yaml  []string // spellings of the same scalar in a YAML document
+	want  any      // json.Unmarshal(json) into any: float64 | string | bool
+	str   bool     // usable as a ConfigMap data value (a JSON string)
+}
+
+func c13MkExo(class, js string, yaml ...string) c13Exo {
+	var want any
+	if err := json.Unmarshal([]byte(js), &want); err != nil {
+		panic("c13 exotic table: " + js + ": " + err.Error())
+	}
+	_, isStr := want.(string)
+	if len(yaml) == 0 {
+		yaml = []string{""}
+	}
+	return c13Exo{class: class, json: js, yaml: yaml, want: want, str: isStr}
+}
+
+func c13Q(s string) string { b, _ := json.Marshal(s); return string(b) }
+
+var c13Exotics = []c13Exo{
+	// integers around and above the int64 range (yaml.v3: int / uint64 / float64)
+	c13MkExo("i", "18446744073709551615", "18446744073709551615", "0xFFFFFFFFFFFFFFFF"),
+	c13MkExo("i", "9223372036854775808", "9223372036854775808"),
+	c13MkExo("i", "9223372036854775807", "9223372036854775807", "0x7FFFFFFFFFFFFFFF"),
+	c13MkExo("i", "-9223372036854775808", "-9223372036854775808"),
+	c13MkExo("i", "12345678901234567890", "12345678901234567890"),
+	c13MkExo("i", "1000000000000000000000000000000", "1000000000000000000000000000000", "1e+30"),
+	// floats, exponents
+	c13MkExo("i", "1e+21", "1e+21", "1.0e+21", "1E21"),
+	c13MkExo("i", "1.5e-07", "1.5e-07", "1.5e-7", "0.00000015"),
+	c13MkExo("i", "2.5", "2.5", "2.50", "25e-1"),
+	// hex / octal spellings of a small integer
+	c13MkExo("i", "31", "0x1F", "0o37", "31"),
+	// timestamps: an unquoted YAML timestamp is the scalar whose canonical form is the RFC 3339 string
+	c13MkExo("s", c13Q("2024-05-01T00:00:00Z"), "2024-05-01", "2024-05-01T00:00:00Z"),
+	c13MkExo("s", c13Q("2001-12-14T21:59:43Z"), "2001-12-14T21:59:43Z", "2001-12-14t21:59:43Z"),
+	// booleans
+	c13MkExo("s", "true", "true", "True", "TRUE"),
+	c13MkExo("s", "false", "false", "False"),
+	// strings that would be another type if they were not quoted
+	c13MkExo("s", c13Q("yes"), "", `"yes"`, `'yes'`),
+	c13MkExo("s", c13Q("off"), "", `"off"`),
+	c13MkExo("s", c13Q("~"), "", `"~"`),
+	c13MkExo("s", c13Q("null"), "", `'null'`),
+	c13MkExo("s", c13Q("123"), "", `"123"`, `'123'`),
+	c13MkExo("s", c13Q("0x1F"), "", `"0x1F"`),
+	c13MkExo("s", c13Q("1e3"), "", `'1e3'`),
+	c13MkExo("s", c13Q("2024-05-01"), "", `"2024-05-01"`, `'2024-05-01'`),
+	c13MkExo("s", c13Q("18446744073709551615"), "", `"18446744073709551615"`),
+	c13MkExo("s", c13Q(""), "", `""`, `''`),
+	// very long strings (the second one is folded by the YAML emitter)
+	c13MkExo("s", c13Q(strings.Repeat("x", 700))),
+	c13MkExo("s", c13Q(strings.TrimSpace(strings.Repeat("lorem ipsum dolor ", 40)))),
+}
+
+// c13ExoVal is the value put into the generic document; JSON rendering writes the JSON text.
+type c13ExoVal struct{ idx int }
+
+func (v c13ExoVal) MarshalJSON() ([]byte, error) { return []byte(c13Exotics[v.idx].json), nil }
+
+// exo picks an exotic scalar for a field of kind k (ConfigMap data: strings only).
+func (g *c13Gen) exo(k *c13Kind) int {
+	for {
+		i := g.rng.Intn(len(c13Exotics))
+		if k.ints || c13Exotics[i].str {
+			return c13ExoBase + i
+		}
+	}
+}
+
+// c13ExoTok: the token of a decoded value that is an exotic scalar - only if it has a Go type the
+// JSON world knows (float64, int64 after a trip through the API machinery, string, bool).
+func c13ExoTok(v any) (string, bool) {
+	for i, e := range c13Exotics {
+		hit := false
+		switch w := e.want.(type) {
+		case float64:
+			switch x := v.(type) {
+			case float64:
+				hit = x == w
+			case int64:
+				hit = float64(x) == w
+			}
+		case string:
+			if x, ok := v.(string); ok {
+				hit = x == w
+			}
+		case bool:
+			if x, ok := v.(bool); ok {
+				hit = x == w
+			}
+		}
+		if hit {
+			return e.class + strconv.Itoa(c13ExoBase+i), true
+		}
+	}
+	return "", false
+}
+
+var c13Placeholder = regexp.MustCompile(`XQ([0-9]+)S([0-9]+)QX`)
+
+// c13YAMLDoc renders one generic document as YAML; exotic scalars are written in the spelling
+// number (salt + occurrence) of their table entry ("" = left to the YAML emitter).
+func c13YAMLDoc(m map[string]any, salt *int) []byte {
+	var walk func(v any) any
+	walk = func(v any) any {
+		switch x := v.(type) {
+		case map[string]any:
+			o := map[string]any{}
+			keys := make([]string, 0, len(x))
+			for k := range x {
+				keys = append(keys, k)
+			}
+			sort.Strings(keys)
+			for _, k := range keys {
+				o[k] = walk(x[k])
+			}
+			return o
+		case []any:
+			o := make([]any, len(x))
+			for i, e := range x {
+				o[i] = walk(e)
+			}
+			return o
+		case c13ExoVal:
+			e := c13Exotics[x.idx]
+			sp := *salt % len(e.yaml)
+			*salt++
+			if e.yaml[sp] == "" {
+				return e.want
+			}
+			return fmt.Sprintf("XQ%dS%dQX", x.idx, sp)
+		}
+		return v
+	}
+	b, _ := k8yaml.Marshal(walk(m))
+	return c13Placeholder.ReplaceAllFunc(b, func(ph []byte) []byte {
+		g := c13Placeholder.FindSubmatch(ph)
+		idx, _ := strconv.Atoi(string(g[1]))
+		sp, _ := strconv.Atoi(string(g[2]))
+		return []byte(c13Exotics[idx].yaml[sp])
+	})
 }
 
 func c13ObjTok(k *c13Kind, o c13Obj) string {
@@ -134,9 +307,9 @@ func c13Manifest(key *c13Key, apiVersion string, o c13Obj) map[string]any {
 		root[key.kind.fields[f-1]] = key.kind.val(n)
 	}
 	return map[string]any{
-		"apiVersion": apiVersion,
-		"kind":       key.kind.name,
-		"metadata":   map[string]any{"name": key.name, "namespace": key.ns},
+		"apiVersion":  apiVersion,
+		"kind":        key.kind.name,
+		"metadata":    map[string]any{"name": key.name, "namespace": key.ns},
 		key.kind.root: root,
 	}
 }
@@ -214,14 +387,13 @@ func c13RenderJSON(docs []c13Doc, garbled bool, rng *Rng) []byte {
 	return []byte(sb.String())
 }
 
-func c13RenderYAML(docs []c13Doc, garbled bool) []byte {
+func c13RenderYAML(docs []c13Doc, garbled bool, salt int) []byte {
 	var sb strings.Builder
 	for i, d := range docs {
 		if i > 0 {
 			sb.WriteString("---\n")
 		}
-		b, _ := k8yaml.Marshal(d.m)
-		sb.Write(b)
+		sb.Write(c13YAMLDoc(d.m, &salt))
 	}
 	if garbled {
 		// truncated inside a quoted scalar of one more document
@@ -259,7 +431,18 @@ func c13ValTok(v any) string {
 				return "s" + strconv.Itoa(n)
 			}
 		}
+		if t, ok := c13ExoTok(v); ok {
+			return t
+		}
 		return "?str"
+	}
+	if t, ok := c13ExoTok(v); ok {
+		return t
+	}
+	switch v.(type) {
+	case uint64, time.Time:
+		// Go types neither encoding/json nor the API machinery know: never the value of a JSON document
+		return fmt.Sprintf("?%T", v)
 	}
 	if n, ok := c13Num(v); ok {
 		return "i" + strconv.Itoa(n)
@@ -780,10 +963,11 @@ func c13PanicSite() string {
 // ---------------------------------------------------------------- generator
 
 type c13Gen struct {
-	rng  *Rng
-	hot  []*c13Key
-	c    *Case
-	ints bool // the case contains an inline object with an integer field
+	rng    *Rng
+	hot    []*c13Key
+	c      *Case
+	ints   bool // the case contains an inline object with an integer field
+	exotic int  // number of exotic scalars in inline payloads
 }
 
 func (g *c13Gen) key() *c13Key {
@@ -801,6 +985,16 @@ func (g *c13Gen) obj() c13Obj {
 		}
 	}
 	return o
+}
+
+// n picks a payload value for an INLINE payload of kind k: one of the nine ordinary values or (25%)
+// a scalar the two decoders type differently.
+func (g *c13Gen) n(k *c13Kind, inline bool) int {
+	if inline && g.rng.Chance(25) {
+		g.exotic++
+		return g.exo(k)
+	}
+	return g.rng.Range(1, 9)
 }
 
 // apiVersion written into a delete/patch document: correct, omitted, or one that does not resolve
@@ -845,11 +1039,17 @@ func (g *c13Gen) genCreate() c13Doc {
 		av = "bogus/v9"
 	}
 	o := g.obj()
+	r := rng.Intn(100)
+	if r < 60 {
+		for f := range o {
+			o[f] = g.n(key.kind, true)
+		}
+	}
 	mf := c13Manifest(key, av, o)
 	d := c13Doc{valid: true, family: "create:" + mode, key: key.id, locks: mode == "CreateOrUpdate"}
 	gvr := c13Resolvable(av, key.kind.name)
 	desc := fmt.Sprintf("C/%s/%d/%s/%s", fl, key.id, c13B01(gvr), c13ObjTok(key.kind, o))
-	switch r := rng.Intn(100); {
+	switch {
 	case r < 60:
 		d.inline = true
 		d.m = map[string]any{"operation": mode, "object": mf}
@@ -931,10 +1131,11 @@ func (g *c13Gen) genPatch() c13Doc {
 	case "m":
 		m["operation"] = "MergePatch"
 		root := map[string]any{}
+		form := rng.Intn(100)
 		for f := 1; f <= 3 && len(es) < 2; f++ {
 			if rng.Chance(45) || (f == 3 && len(es) == 0) {
 				if rng.Chance(70) {
-					n := rng.Range(1, 9)
+					n := g.n(k, form < 55)
 					es = append(es, c13Edit{"set", f, n})
 					root[k.fields[f-1]] = k.val(n)
 				} else {
@@ -945,7 +1146,7 @@ func (g *c13Gen) genPatch() c13Doc {
 		}
 		p := map[string]any{k.root: root}
 		body = c13EditsTok(k, es)
-		switch r := rng.Intn(100); {
+		switch r := form; {
 		case r < 55:
 			m["mergePatch"] = p
 		case r < 75:
@@ -964,9 +1165,10 @@ func (g *c13Gen) genPatch() c13Doc {
 	case "j":
 		m["operation"] = "JSONPatch"
 		var arr []any
+		form := rng.Intn(100)
 		for i := rng.Range(1, 2); i > 0; i-- {
 			f := rng.Range(1, 3)
-			n := rng.Range(1, 9)
+			n := g.n(k, form < 55)
 			path := "/" + k.root + "/" + k.fields[f-1]
 			switch rng.Intn(3) {
 			case 0:
@@ -981,7 +1183,7 @@ func (g *c13Gen) genPatch() c13Doc {
 			}
 		}
 		body = c13EditsTok(k, es)
-		switch r := rng.Intn(100); {
+		switch r := form; {
 		case r < 55:
 			m["jsonPatch"] = arr
 		case r < 75:
@@ -1187,7 +1389,7 @@ func c13RunCase(c *Case, rng *Rng, init map[int]c13Obj, initTok string, docs []c
 	}
 	renderings := map[string][]byte{
 		"json": c13RenderJSON(docs, garbled, rng),
-		"yaml": c13RenderYAML(docs, garbled),
+		"yaml": c13RenderYAML(docs, garbled, rng.Intn(60)),
 	}
 	sig := map[string]string{}
 	for _, form := range []string{"json", "yaml"} {
@@ -1311,6 +1513,11 @@ func c13Random(c *Case, rng *Rng) {
 	}
 	if g.ints {
 		c.Note("inline-object-with-integer-field")
+	}
+	if g.exotic > 0 {
+		c.Note("scalars-typed-differently-by-the-decoders:1+")
+	} else {
+		c.Note("scalars-typed-differently-by-the-decoders:0")
 	}
 	c.Desc = fmt.Sprintf("%d docs, %s, init=%s, other writers=%s", n, mode, initTok, c13WritersTok(writers))
 	c.Nontrivial = n >= 2
